@@ -77,6 +77,13 @@ Section L.
     rewrite IH by (intros Hin; apply H; right; exact Hin). reflexivity.
   Qed.
 
+  Lemma take_line_end text : ~ In 10%N text -> take_line text = (text, []).
+  Proof.
+    induction text as [|c text IH]; intros H; cbn [take_line]; [reflexivity|].
+    replace (c =? 10)%N with false by (symmetry; apply N.eqb_neq; intros ->; apply H; left; reflexivity).
+    rewrite IH by (intros Hin; apply H; right; exact Hin). reflexivity.
+  Qed.
+
   (* a comment runs to the end of the line; the line break stays (and is then skipped as white space) *)
   Lemma next_raw_comment text s : ~ In 10%N text -> next_raw (59%N :: text ++ 10%N :: s) = (RComment (59%N :: text), 10%N :: s).
   Proof.
@@ -107,14 +114,16 @@ Section L.
       (exists c w, s = c :: w /\ wordc c = true /\ c <> 59%N /\ c <> 34%N /\ Forall (fun c => wordc c = true) w) /\
       classify infix s = Some [t]
     | KStr s => ~ In 34%N s
-    | KComment _ => False
+    | KComment s => exists text, s = 59%N :: text /\ ~ In 10%N text      (* `;` up to, not including, the line break *)
     | _ => True
     end.
 
   (* separator after a token: white space; it may be empty unless the token is a word and the next text starts
      with a word character *)
   Definition sep_ok (t : tok) (sep : str) (next : str) : Prop :=
-    all_space sep /\ (sep = [] -> is_word_tok t = true -> stops next).
+    all_space sep /\ (sep = [] -> is_word_tok t = true -> stops next) /\
+    (* a comment ends at a line break, or at the end of the input *)
+    (is_comment t = true -> (exists sep', sep = 10%N :: sep') \/ (sep = [] /\ next = [])).
 
   Fixpoint render (items : list (tok * str)) : str :=
     match items with [] => [] | (t, sep) :: rest => tok_text t ++ sep ++ render rest end.
@@ -138,7 +147,7 @@ Section L.
   Lemma tok_text_nonempty infix t : wf_tok infix t -> (1 <= length (tok_text t))%nat.
   Proof.
     destruct t as [s|s|s| | | | | |s]; cbn [wf_tok tok_text]; intros H;
-      try (destruct H as [(c & w & -> & _) _]); try (destruct H; fail); cbn [length]; lia.
+      try (destruct H as [(c & w & -> & _) _]); try (destruct H as (text & -> & _)); cbn [length]; lia.
   Qed.
 
   (* the lexer inverts every rendering *)
@@ -149,7 +158,7 @@ Section L.
     induction items as [|[t sep] rest IH]; intros fuel lead Hwf Hlead Hfuel.
     - cbn [render map]. rewrite app_nil_r. destruct fuel; [cbn in Hfuel; lia|]. cbn [Lexer.lex_loop].
       replace lead with (lead ++ []) by apply app_nil_r. rewrite next_raw_spaces by exact Hlead. reflexivity.
-    - cbn [render map fst wf_items] in *. destruct Hwf as (Ht & (Hsp & Hfuse) & Hrest).
+    - cbn [render map fst wf_items] in *. destruct Hwf as (Ht & (Hsp & Hfuse & Hcmt) & Hrest).
       destruct fuel; [cbn in Hfuel; lia|]. cbn [Lexer.lex_loop]. rewrite next_raw_spaces by exact Hlead.
       assert (Hlen : (length (sep ++ render rest) < fuel)%nat).
       { rewrite !app_length in Hfuel. rewrite app_length. pose proof (tok_text_nonempty infix t Ht). lia. }
@@ -178,7 +187,18 @@ Section L.
         rewrite (IH fuel sep Hrest Hsp Hlen). reflexivity.
       + cbn [app]. rewrite next_raw_delim by (try reflexivity; discriminate). rewrite (delim_classify infix 44%N KComma) by (cbn; auto 10).
         rewrite (IH fuel sep Hrest Hsp Hlen). reflexivity.
-      + destruct Ht.
+      + (* a comment: up to the line break, or to the end of the input *)
+        destruct Ht as (text & -> & Hnl). destruct (Hcmt eq_refl) as [[sep' ->]|[-> Er]].
+        * replace ((59%N :: text) ++ (10%N :: sep') ++ render rest) with (59%N :: text ++ 10%N :: (sep' ++ render rest)) by reflexivity.
+          rewrite next_raw_comment by exact Hnl.
+          change (10%N :: sep' ++ render rest) with ((10%N :: sep') ++ render rest).
+          rewrite (IH fuel (10%N :: sep') Hrest Hsp Hlen). reflexivity.
+        * rewrite Er, !app_nil_r. unfold Lexer.next_raw. cbn [trim_left]. change (is_space 59%N) with false. cbv iota.
+          change (59 =? 59)%N with true. cbv iota. rewrite take_line_end by (intros [E|H]; [discriminate|exact (Hnl H)]).
+          assert (Hr : rest = []) by (destruct rest as [|[t0 s0] r0]; [reflexivity|]; exfalso; cbn [render] in Er;
+            cbn [wf_items] in Hrest; destruct Hrest as (Ht0 & _ & _); pose proof (tok_text_nonempty infix t0 Ht0) as Hn;
+            destruct (tok_text t0); [cbn in Hn; lia|discriminate]).
+          subst rest. destruct fuel; [cbn in Hlen; lia|]. reflexivity.
   Qed.
 
   (* two layouts of the same tokens give the same token sequence *)
@@ -189,5 +209,16 @@ Section L.
     intros H1 H2 E. unfold Lexer.lex.
     rewrite (lex_render infix items1 _ [] H1 (Forall_nil _)) by (cbn; lia).
     rewrite (lex_render infix items2 _ [] H2 (Forall_nil _)) by (cbn; lia). rewrite E. reflexivity.
+  Qed.
+
+  (* ... and comments may come and go: what the parser sees (the tokens without the comments) is the same *)
+  Corollary layout_invariance_comments infix items1 items2 :
+    wf_items infix items1 -> wf_items infix items2 -> drop_comments (map fst items1) = drop_comments (map fst items2) ->
+    option_map drop_comments (lex is_letter is_number infix (render items1)) =
+    option_map drop_comments (lex is_letter is_number infix (render items2)).
+  Proof.
+    intros H1 H2 E. unfold Lexer.lex.
+    rewrite (lex_render infix items1 _ [] H1 (Forall_nil _)) by (cbn; lia).
+    rewrite (lex_render infix items2 _ [] H2 (Forall_nil _)) by (cbn; lia). cbn [option_map]. rewrite E. reflexivity.
   Qed.
 End L.
